@@ -633,6 +633,29 @@ theorem C19_connection_record_independent_of_password (u p p' : Str) (a b x y : 
     r.stageConn ⟨.tupleSub u p, a, b, x, y⟩ = r.stageConn ⟨.tupleSub u p', a, b, x, y⟩ := by
   simp [LogRec.stageConn, connStr, connRepr, credsRepr]
 
+/-- "the password is not a substring of any emitted text", as far as pywbem formats the text itself: everything a
+    connection with tuple credentials (any tuple form) shows in str(), repr() and its 'Connection:' record is
+    literally what the same connection with the EMPTY password shows — so the password can occur in it only where
+    the user id, URL or another attribute text already contains it -/
+theorem C19_emitted_connection_text_is_that_of_empty_password (u p : Str) (a b x y : Str) (r : LogRec) :
+    connStr ⟨.tuple u p, a, b, x, y⟩ = connStr ⟨.tuple u [], a, b, x, y⟩ ∧
+    connRepr ⟨.tuple u p, a, b, x, y⟩ = connRepr ⟨.tuple u [], a, b, x, y⟩ ∧
+    r.stageConn ⟨.tuple u p, a, b, x, y⟩ = r.stageConn ⟨.tuple u [], a, b, x, y⟩ ∧
+    connStr ⟨.tupleSub u p, a, b, x, y⟩ = connStr ⟨.tupleSub u [], a, b, x, y⟩ ∧
+    connRepr ⟨.tupleSub u p, a, b, x, y⟩ = connRepr ⟨.tupleSub u [], a, b, x, y⟩ ∧
+    r.stageConn ⟨.tupleSub u p, a, b, x, y⟩ = r.stageConn ⟨.tupleSub u [], a, b, x, y⟩ := by
+  refine ⟨rfl, rfl, ?_, rfl, rfl, ?_⟩ <;> simp [LogRec.stageConn, connStr, connRepr, credsRepr]
+
+/-- … and every log record and test case of an operation is literally the one the connection with the empty
+    password emits, given the transport answers alike -/
+theorem C19_emitted_operation_records_are_those_of_empty_password (v : Variant) (c : Conn) (u p : Str)
+    (b64 : Str → Str) (call : Call) (core : Core)
+    (hsend : ∀ body hs, core.send body (hs ++ authHeader b64 (.tuple u [])) =
+                        core.send body (hs ++ authHeader b64 (.tuple u p))) :
+    (runOp v (withCreds c (.tuple u p)) b64 call core).events =
+      (runOp v (withCreds c (.tuple u [])) b64 call core).events :=
+  (runOp_creds v c (.tuple u []) (.tuple u p) b64 call core hsend).1
+
 /-- password noninterference for an operation: two connections that differ only in the credentials emit the same
     log records and test cases and have the same outcome, provided the transport answers alike (the credentials
     reach nothing but the Authorization header handed to the transport) -/
